@@ -46,6 +46,18 @@ def main():
     if a in s:
         s = s[:s.index(a) + len(a)] + '\n' + text + '\n' + s[s.index(b):]
         open(p, 'w').write(s)
+    # throughput table from the committed evidence files
+    import glob
+    rows2 = ['| check | tier | runs | cases | distinct non-trivial | wall | runs / hour |', '|---|---|---|---|---|---|---|']
+    for f in sorted(glob.glob(os.path.join(VERIF, 'evidence', '*.json'))):
+        e = json.load(open(f))
+        c = e['coverage']
+        rows2.append('| %s | %s | %d | %d | %d | %.0f s | %d |' % (e['property_id'], e['tier'], c.get('runs', 0), c['evaluations'], c['distinct_nontrivial'], e['wall_s'], c.get('runs_per_hour', 0)))
+    s = open(p).read()
+    a, b = '<!-- throughput-table -->', '<!-- /throughput-table -->'
+    if a in s:
+        s = s[:s.index(a) + len(a)] + '\n' + '\n'.join(rows2) + '\n' + s[s.index(b):]
+        open(p, 'w').write(s)
     print(text)
 
 
